@@ -5,7 +5,6 @@ import (
 	"go/types"
 	"sort"
 	"strings"
-	"sync"
 
 	"cachelint/internal/core"
 	"cachelint/internal/sym"
@@ -122,6 +121,10 @@ func tableMentions(t map[string][]string, what string) bool {
 }
 
 func tableDiff(a, b map[string][]string) string {
+	// one twin decides without looking at the key's state (the single row "-": Set through Store), the other goes
+	// through the locked read-modify-write and so has a row per state: equal when every such row carries the outcome
+	// of the "-" row
+	a, b = spreadStateless(a, b), spreadStateless(b, a)
 	var out []string
 	keys := map[string]bool{}
 	for k := range a {
@@ -145,6 +148,25 @@ func tableDiff(a, b map[string][]string) string {
 		out = append(out[:3], fmt.Sprintf("... and %d more rows", len(out)-3))
 	}
 	return strings.Join(out, "; ")
+}
+
+// spreadStateless: when t is the single row "-" and other has state rows only, t restated over other's states.
+func spreadStateless(t, other map[string][]string) map[string][]string {
+	if len(t) != 1 || len(other) == 0 {
+		return t
+	}
+	os, ok := t["-"]
+	if !ok {
+		return t
+	}
+	if _, has := other["-"]; has {
+		return t
+	}
+	out := map[string][]string{}
+	for k := range other {
+		out[k] = os
+	}
+	return out
 }
 
 // normType renders a type with K=string, V=interface{} and Of-suffixed generic names replaced by their plain twins.
@@ -408,8 +430,6 @@ func wrapperSummary(mm *core.MapModel, w *ssa.Function) string {
 	return strings.Join(parts, ",") + " " + rets
 }
 
-var c15mu sync.Mutex
-
 func c12W4(r *Run, rep *core.Report) {
 	scope := r.P.Cache.Pkg.Scope()
 	for _, pr := range [][2]string{{"configDefault", "configDefaultOf"}, {"DefaultConfig", "DefaultConfigOf"}} {
@@ -439,10 +459,8 @@ func c12W4(r *Run, rep *core.Report) {
 		rep.Check(diff == "", "C12.W4", pr[0]+" == "+pr[1], r.P.Pos(fa.Pos()), fmt.Sprintf("equal results on all %d region representatives", nSamples), "config helpers differ: "+diff)
 	}
 	// constructors: same structural verdicts (C15 rule families) on both twins
-	c15mu.Lock()
 	C15(r)
-	va, vb := c15TwinVerdicts[0], c15TwinVerdicts[1]
-	c15mu.Unlock()
+	va, vb := r.c15Twin[0], r.c15Twin[1]
 	perTwin := [2]map[string]bool{va, vb}
 	var diff []string
 	for k, v := range va {
